@@ -19,8 +19,9 @@ from ..drivers import mirror_drv as drv
 
 ACTIONS = ["NDeliver", "NSkip", "NVanish", "NCrash", "Restart", "EndHandler", "MkDirs", "Cmp", "RmTmp", "CopyBegin", "CopyEnd",
            "Link", "MvRename", "Unlink", "Rename", "RmDirSrc", "RbRemove"]
-QUICK_WITNESSES = ["NoCrashBetweenCopyAndRename", "NoHalfCopyAfterCrash", "NoStaleEvent", "NeverTwoCopies", "NoExpiry"]
-MORE_WITNESSES = ["NoRepeatedEvent", "NoStuckTmp", "NoExpiryOnOlderEvent", "NoRecopyOverHalf", "NeverQuiescentAfterCrash"]
+QUICK_WITNESSES = ["NoCrashBetweenCopyAndRename", "NoHalfCopyAfterCrash", "NoStaleEvent", "NeverTwoCopies", "NoExpiry",
+                   "NoRepeatedEvent", "NoExpiryOnOlderEvent", "NoRecopyOverHalf"]
+MORE_WITNESSES = ["NoStuckTmp", "NeverQuiescentAfterCrash"]
 
 COMBOS = [  # method, link, exdev
     ("copy", False, False), ("copy", False, True), ("link", True, False), ("link", True, True),
@@ -124,10 +125,8 @@ def crash_points(sc, nops, rng, budget):
 # ---------------------------------------------------------------------------------------------------
 def model_recording(digital_rf, root):
     """a recording of the shape of MCMirror's universe U: properties, two RF files, two metadata files"""
-    import random
-
     for seed in range(200):
-        rec = drv.Recording(digital_rf, root, random.Random(seed), nch=1, name="model-U")
+        rec = drv.Recording(digital_rf, root, seed, nch=1, name="model-U")
         kinds = sorted(f["kind"] for f in rec.files)
         subs = sorted(f["sub"] for f in rec.files if f["kind"] == "pr")
         if kinds == ["md", "md", "pr", "pr", "rf", "rf"] and subs == ["dmd", "drf"]:
@@ -253,6 +252,26 @@ def selfcheck(ctx, scen, verdicts):
     ctx.extra["corrupted_traces_rejected"] = res
 
 
+def replay(ctx, path):
+    """write the stored recording again, re-execute the stored history on a fresh real mirror and validate again"""
+    import json
+
+    sc = json.load(open(path))["replay"]["scenario"]
+    ctx.stage()
+    import digital_rf
+
+    rr = sc["rerun"]
+    work = os.path.join(ctx.work, "mir")
+    os.makedirs(work, exist_ok=True)
+    rec = drv.Recording(digital_rf, os.path.join(work, "rec"), rr["rec"]["seed"], nch=rr["rec"]["nch"], name=rr["rec"]["name"])
+    sc2, _ = drv.run_history(digital_rf, rec, work, sc["name"], sc["opts"], [tuple(x) for x in rr["steps"]],
+                             crash_at=rr.get("crash_at"), crash_rule=tuple(rr["crash_rule"]) if rr.get("crash_rule") else None,
+                             desc=sc.get("desc", ""))
+    ctx.evaluations = len(sc2["events"])
+    ctx.sample({"name": sc2["name"], "desc": sc2["desc"], "events": len(sc2["events"])})
+    ctx.validate("MirrorTrace", "MirrorTrace.cfg", [sc2], label="replay", relevant=relevant)
+
+
 # ---------------------------------------------------------------------------------------------------
 def run(ctx):
     q = ctx.quick
@@ -263,7 +282,7 @@ def run(ctx):
     else:
         ctx.model_check("MCMirror", "MCMirror_thorough.cfg", coverage=False, timeout=3000)
     ctx.model_check("MCMirror", "MCMirror_cov.cfg", required_actions=ACTIONS, tag="cov", timeout=600)
-    for w in QUICK_WITNESSES + MORE_WITNESSES:
+    for w in QUICK_WITNESSES + ([] if q else MORE_WITNESSES):
         ctx.model_check("MCMirror", "MCMirror_W_%s.cfg" % w, expect_violated=("W_" + w,), coverage=False, tag="W_" + w,
                         timeout=900)
 
@@ -282,7 +301,7 @@ def run(ctx):
         kinds[kind] = kinds.get(kind, 0) + 1
 
     # ---- E2 ---------------------------------------------------------------------------
-    nbeh = ctx.pick(60, 1500)
+    nbeh = ctx.pick(60, 600)
     mrec = model_recording(digital_rf, os.path.join(work, "model_rec"))
     behs, cmd = tlc.simulate("MCMirror", "MCMirror_sim.cfg", ctx.work, num=nbeh, depth=ctx.pick(60, 90), seed=ctx.seed + 17)
     ctx.extra["simulate_cmd"] = cmd
@@ -293,14 +312,14 @@ def run(ctx):
     nsim = len(scen)
 
     # ---- E3 ---------------------------------------------------------------------------
-    nrec = ctx.pick(3, 12)
+    nrec = ctx.pick(3, 5)
     recs = []
     for i in range(nrec):
         nch = 1 if i % 3 != 2 else 2
-        recs.append(drv.Recording(digital_rf, os.path.join(work, "rec%d" % i), rng, nch=nch, name="rec%d" % i))
+        recs.append(drv.Recording(digital_rf, os.path.join(work, "rec%d" % i), rng.randrange(2**31), nch=nch, name="rec%d" % i))
     ctx.extra["recordings"] = [r.desc for r in recs]
-    nrand = ctx.pick(2, 8)
-    sample_n = ctx.pick(4, 30)
+    nrand = ctx.pick(2, 4)
+    sample_n = ctx.pick(4, 10)
     for ri, rec in enumerate(recs):
         for ci, (method, link, exdev) in enumerate(COMBOS):
             opts = dict(method=method, link=link and method == "move", exdev=exdev)
@@ -313,13 +332,13 @@ def run(ctx):
                 add(sc, "crash-free")
                 # crash sweeps.  move: every point between two operations - quick: on the start() replay of the first
                 # recording (all four move variants) and on a derived history of the second (two variants); thorough: on
-                # the replay and three derived histories of every recording.  Everything else: sampled points, always
+                # the replay and two derived histories of every recording.  Everything else: sampled points, always
                 # including the points inside a data copy (half-copied tmp.) and between staging and publishing.
                 if method == "move":
                     if q:
                         every = (ri == 0 and hi == 0) or (ri == 1 and hi == 1 and not opts["link"])
                     else:
-                        every = hi <= 3
+                        every = hi <= 2
                 else:
                     every = False
                 if every:
